@@ -53,9 +53,9 @@ def make(ck, rnd, n):
         warm = wrec.rand_inputs(rnd, c, lanes, multi=rnd.random() < 0.5, tmax=12) if rnd.random() < 0.5 else None
         # initial and final values do not depend on the time at which the outputs are sampled: c_to_s(time=T) with a finite T
         T = rnd.choice([None, None, 0.5, 3.0, 7.5, 12.0])
-        mt = dict(T=T, circuit=gen.circuit_state(c), lanes=lanes, delays=d.tolist(), caps=rnd.choice([4, 8, 16]), inw=inw, warm=warm,
+        mt = dict(T=T, circuit=gen.circuit_state(c), lanes=lanes, delays=d.tolist(), caps=rnd.choice([4, 8, 16, [rnd.choice([4, 8, 16]) for _ in range(len(c.lines) + 3)], [4 if x < len(c.s_nodes) else 16 for x in range(len(c.lines) + 3)]]), inw=inw, warm=warm,
                   cls=rnd.choice(['WaveSim', 'WaveSimCuda']), wreuse=rnd.random() < 0.5, wstrip=wstrip, lreuse=rnd.random() < 0.5, lstrip=rnd.random() < 0.5)
-        mt['desc'] = '%s wave(reuse=%s strip=%s) logic(reuse=%s strip=%s) caps=%s T=%s' % (mt['cls'], mt['wreuse'], mt['wstrip'], mt['lreuse'], mt['lstrip'], mt['caps'], T)
+        mt['desc'] = '%s wave(reuse=%s strip=%s) logic(reuse=%s strip=%s) caps=%s T=%s' % (mt['cls'], mt['wreuse'], mt['wstrip'], mt['lreuse'], mt['lstrip'], mt['caps'] if isinstance(mt['caps'], int) else 'per-line', T)
         recs.append(build(mt))
         metas.append(mt)
     return recs, metas
